@@ -6,7 +6,7 @@
 (2) code -> spec record validation (P-A, spec/C17Trace.tla): for every generated source the harness
     (`vh c17-run`) builds P from source, b1 = Write(P), Q = CompiledProgram(b1), b2 = Write(Q), runs
     P.Init and Q.Init with the same environment and loader, and TLC checks Obs(P) = Obs(Q),
-    Meta(P) = Meta(Q), b1 = b2 on every record; for a third of the records the real file b1 (split
+    Meta(P) = Meta(Q), b1 = b2 on every record; for the branch programs and a fifth of the generated ones the real file b1 (split
     into raw varints and string section only) is parsed by Serial!Decode and must equal the fields the
     implementation holds for P, re-encode to b1, and equal the fields of Q.
 """
@@ -33,7 +33,7 @@ def q(s):
 
 INT_CONSTS = ["0", "1", "7", "255", "65536", "2147483647", "2147483648", "4294967296", "4611686018427387904", "9223372036854775807",
               "9223372036854775808", "18446744073709551616", "1180591620717411303424", "123456789012345678901234567890",
-              "0x7fffffffffffffff", "0o777", "0b1011", "1" + "0" * 60, "9" * 310]
+              "0x7fffffffffffffff", "0o777", "0b1011", "1" + "0" * 60]
 FLOAT_CONSTS = ["0.0", "1.5", "1e308", "5e-324", "1e-7", "3.141592653589793", "1e21", "0.1", "2.2250738585072014e-308", "1.7976931348623157e308", ".5", "1e0"]
 BYTES_CONSTS = ['b""', 'b"\\x00\\xff\\xfe"', 'b"abc"', 'b"\\n\\t"', 'b"\\xc3\\x28"', 'b"' + "z" * 200 + '"', 'b"\\xf0\\x9f\\x98\\x80"']
 STR_CONSTS = ['""', '"abc"', '"\\u00e9\\U0001F600"', '"nul\\x00nul"', '"' + "long " * 60 + '"', '"q\\"uote\\\\"', '"line\\nbreak"', "'single'",
@@ -284,7 +284,7 @@ def generate(ctx):
         progs.append(p)
     for i, p in enumerate(progs):
         p["id"] = i + 1
-        p["fields"] = (i % 3 == 0) or i < 120       # conformance with Serial.tla: the branch programs and every third program
+        p["fields"] = (i % 5 == 0) or i < 120       # conformance with Serial.tla: the branch programs and every fifth program
     return progs
 
 
